@@ -51,6 +51,9 @@ const rNF = echo.RouteNotFound
 var rSegs = []string{"a", "b", "ab", "ba", "abc", "users", "us", ":x", ":y", ":id", "a:x", "u:n", "*", "", "a*", "v1"}
 var rMethods = []string{"GET", "POST", "GET", "GET", rNF, "PURGE", "PUT", "LOCK"}
 
+// all eleven built-in methods, the not-found pseudo method and custom names (C03)
+var rAllMethods = []string{"CONNECT", "DELETE", "GET", "HEAD", "OPTIONS", "PATCH", "POST", "PROPFIND", "PUT", "TRACE", "REPORT", rNF, "PURGE", "LOCK", "get"}
+
 func rGenPattern(rng *rand.Rand) string {
 	n := rng.Intn(4)
 	p := ""
@@ -131,7 +134,10 @@ func rGenTemplate(rng *rand.Rand) []rRoute {
 	return out
 }
 
+var rMethodPool = rMethods
+
 func rGenTable(rng *rand.Rand, max int) []rRoute {
+	rMethods := rMethodPool
 	if max >= 5 && rng.Intn(3) == 0 {
 		return rGenTemplate(rng)
 	}
